@@ -588,7 +588,13 @@ func jsStringExpr(u []uint16, forceCharCode bool) string {
 }
 
 func (g *gen) strCase(fns []int, u []uint16, bucket string, nontrivial bool) {
-	expr := jsStringExpr(u, g.r.Intn(3) == 0)
+	g.strArgCase(fns, jsStringExpr(u, g.r.Intn(3) == 0), u, bucket, nontrivial)
+}
+
+// fns applied to the JS expression arg whose ToString is the text u ("" as arg: no argument at all);
+// the result must be a String primitive
+func (g *gen) strArgCase(fns []int, arg string, u []uint16, bucket string, nontrivial bool) {
+	expr := arg
 	for _, f := range fns {
 		expr = strFnNames[f] + "(" + expr + ")"
 	}
@@ -1386,9 +1392,179 @@ func (g *gen) errIdSweeps() {
 	}
 }
 
+// ---------- every argument converted exactly once, in order ----------
+func (g *gen) countCase(fn int, vals []float64) {
+	var b strings.Builder
+	b.WriteString("var __log = []; function __L(i, v) { return {valueOf: function () { __log.push(i); return v }, toString: function () { __log.push(i); return '1' }} } ")
+	b.WriteString(fnText(fn) + "(")
+	cq := make([]string, len(vals))
+	for i, v := range vals {
+		if i > 0 {
+			b.WriteString(", ")
+		}
+		fmt.Fprintf(&b, "__L(%d, %s)", i, JSNum(v))
+		cq[i] = Cdouble(v)
+	}
+	b.WriteString(")")
+	src := b.String()
+	o := RunJS(g.vm, src)
+	obs, txt := "(-9)", ""
+	switch {
+	case o.Panic != nil:
+		txt = fmt.Sprintf("!panic %v", o.Panic)
+	case o.Err != nil:
+		obs, txt = "(-3)", "!err "+o.Err.Error()
+	default:
+		lo := RunJS(g.vm, "__log.join('')")
+		order := "?"
+		if lo.Panic == nil && lo.Err == nil {
+			order = lo.Val.String()
+			obs = fmt.Sprintf("%d", len(order))
+			for i := 0; i < len(order); i++ { // once each, left to right
+				if int(order[i]-'0') != i {
+					obs = "(-2)"
+				}
+			}
+		}
+		txt = fmt.Sprintf("returned %s ; conversions logged: %q", o.Val.String(), order)
+	}
+	g.env.Add(fmt.Sprintf("CCount %d %s %s", fn, Clist(cq), obs), "count "+src+" -> "+txt, "count:"+fnText(fn), true)
+}
+
+func (g *gen) countSweeps() {
+	nan := math.NaN()
+	fns := append([]int{}, allUnary...)
+	fns = append(fns, 4, 12, 10, 11, 17, 100, 101, 102, 103, 104, 105, 106, 107, 108, 109)
+	for _, fn := range fns {
+		g.countCase(fn, []float64{1})
+		g.countCase(fn, []float64{2, 3})
+		g.countCase(fn, []float64{2, 3, 4})
+		g.countCase(fn, []float64{math.Inf(1)})
+		g.countCase(fn, []float64{math.Inf(-1), 1})
+		g.countCase(fn, []float64{nan})
+		g.countCase(fn, []float64{0.5, nan})
+	}
+	for _, fn := range []int{10, 11, 4, 12} {
+		g.countCase(fn, []float64{nan, 1, 2})
+		g.countCase(fn, []float64{1, nan, 2})
+		g.countCase(fn, []float64{1, 2, nan})
+		g.countCase(fn, []float64{1, 2, 3, 4, 5, 6})
+	}
+}
+
+// ---------- re-entrant calls from an argument's conversion ----------
+type reent struct {
+	js  string
+	val float64
+}
+
+var reentNum = []reent{
+	{"Math.max(1, 2)", 2}, {"Math.min(7, 8, 9)", 7}, {"Math.max(-0, 0)", 0}, {"Math.min(0, -0)", math.Copysign(0, -1)}, {"Math.max()", math.Inf(-1)}, {"Math.min()", math.Inf(1)},
+	{"Math.max(NaN, 1)", math.NaN()}, {"Math.max(Math.min(5, 6), 1)", 5}, {"Math.max.apply(null, [1, 2, 3, 4, 5, 6, 7, 8, 9])", 9}, {"Math.min.call(null, 4, 3)", 3},
+	{"Math.max({valueOf: function () { return Math.min(8, 9) }}, 1)", 8}, {"Math.min(6, {valueOf: function () { return Math.max(-4, -5, -6) }})", -4},
+	{"Math.pow(2, 3)", 8}, {"Math.abs(-3)", 3}, {"Math.round(2.5)", 3}, {"Math.floor(-0.5)", -1}, {"Math.atan2(0, 1)", 0}, {"Math.sqrt(16)", 4},
+	{"(isNaN('x') ? 4 : 5)", 4}, {"(isFinite(1 / 0) ? 4 : 5)", 5}, {"encodeURIComponent('a b').length", 5}, {"unescape('%41').charCodeAt(0)", 65},
+}
+
+func reArg(r reent) jarg {
+	return jarg{"({valueOf: function () { return " + r.js + " }})", "(JObj (JNum " + Cdouble(r.val) + "))", true}
+}
+
+var reentStr = []struct{ js, text string }{
+	{"encodeURIComponent('a b')", "a%20b"}, {"decodeURIComponent('%C3%A9')", "é"}, {"escape('é')", "%E9"}, {"unescape('%u20AC')", "€"},
+	{"encodeURI('é') + '/x'", "%C3%A9/x"}, {"String(Math.max(1, 2))", "2"}, {"decodeURI('%41%3B')", "A%3B"}, {"escape(unescape('%u0100@'))", "%u0100@"},
+}
+
+func (g *gen) reentrantSweeps() {
+	plain := []float64{5, 0, math.Copysign(0, -1), 3}
+	for _, r := range reentNum {
+		a := reArg(r)
+		for _, fn := range []int{10, 11} {
+			for _, p := range plain {
+				g.mathCase(fn, []jarg{numArg(p), a})
+				g.mathCase(fn, []jarg{a, numArg(p)})
+			}
+			g.mathCase(fn, []jarg{numArg(1), a, numArg(9)})
+			g.mathCase(fn, []jarg{numArg(9), numArg(1), a})
+			g.mathCase(fn, []jarg{numArg(4), a, a})
+			g.mathCase(fn, []jarg{a, a})
+			g.mathCase(fn, []jarg{numArg(-7), numArg(8), numArg(1), a, numArg(2)})
+			for _, r2 := range []reent{reentNum[0], reentNum[1], reentNum[8]} {
+				g.mathCase(fn, []jarg{numArg(6), a, reArg(r2)})
+				g.mathCase(fn, []jarg{reArg(r2), numArg(-6), a})
+			}
+		}
+		for _, fn := range []int{0, 5, 8, 13, 31, 15, 7, 9, 14, 6, 3} {
+			g.mathCase(fn, []jarg{a})
+		}
+		g.mathCase(12, []jarg{a, numArg(2)})
+		g.mathCase(12, []jarg{numArg(2), a})
+		g.mathCase(12, []jarg{a, a})
+		g.mathCase(4, []jarg{a, numArg(1)})
+		g.mathCase(4, []jarg{numArg(1), a})
+		for w, name := range []string{"isNaN", "isFinite"} {
+			src := name + "(" + a.js + ")"
+			o := RunJS(g.vm, src)
+			obs, txt := "(-9)", "!"
+			if o.Panic == nil && o.Err == nil && o.Val.IsBoolean() {
+				bv, _ := o.Val.ToBoolean()
+				obs, txt = "0", "false"
+				if bv {
+					obs, txt = "1", "true"
+				}
+			}
+			g.env.Add(fmt.Sprintf("CIsNum %d [%s] %s", w, a.coq, obs), "isnum "+src+" -> "+txt, "reentrant:"+name, true)
+		}
+	}
+	for _, r := range reentStr {
+		arg := "({toString: function () { return " + r.js + " }})"
+		for f := 0; f < 6; f++ {
+			g.strArgCase([]int{f}, arg, Units(r.text), "reentrant:str", true)
+		}
+		g.strArgCase([]int{1, 3}, arg, Units(r.text), "reentrant:str", true)
+		g.strArgCase([]int{4, 5}, arg, Units(r.text), "reentrant:str", true)
+	}
+}
+
+// ---------- non-string arguments of the string functions: the result is ToString-based and a String ----------
+func (g *gen) strArgSweeps() {
+	args := []struct{ js, text string }{
+		{"", "undefined"}, {"undefined", "undefined"}, {"null", "null"}, {"true", "true"}, {"false", "false"},
+		{"42", "42"}, {"0", "0"}, {"(-0)", "0"}, {"(-1)", "-1"}, {"7.5", "7.5"}, {"NaN", "NaN"}, {"Infinity", "Infinity"}, {"(-Infinity)", "-Infinity"}, {"1e21", "1e+21"}, {"2016", "2016"},
+		{"(1<<31)", "-2147483648"}, {"(-1>>>0)", "4294967295"}, {"'abc'.length", "3"},
+		{"new String('a b')", "a b"}, {"new String('user-17')", "user-17"}, {"new Number(5)", "5"}, {"new Boolean(false)", "false"},
+		{"[1,2]", "1,2"}, {"['a','b']", "a,b"}, {"[]", ""}, {"['x']", "x"}, {"[[1],[2]]", "1,2"},
+		{"({toString: function () { return 'user-17' }})", "user-17"}, {"({toString: function () { return 'é;' }})", "é;"}, {"({toString: function () { return 42 }})", "42"},
+		{"({toString: function () { return {} }, valueOf: function () { return 'v1' }})", "v1"}, {"({valueOf: function () { return 'ignored' }})", "[object Object]"},
+		{"({})", "[object Object]"}, {"(function(){ return arguments })()", "[object Arguments]"}, {"Math", "[object Math]"},
+	}
+	for _, a := range args {
+		for f := 0; f < 6; f++ {
+			g.strArgCase([]int{f}, a.js, Units(a.text), "strarg", true)
+		}
+		g.strArgCase([]int{1, 3}, a.js, Units(a.text), "strarg", true)
+		g.strArgCase([]int{0, 2}, a.js, Units(a.text), "strarg", true)
+		g.strArgCase([]int{4, 5}, a.js, Units(a.text), "strarg", true)
+	}
+	// Go values handed over through the API
+	for _, v := range []struct {
+		gov  interface{}
+		desc string
+		text string
+	}{{int32(5), "int32(5)", "5"}, {int8(-7), "int8(-7)", "-7"}, {uint8(200), "uint8(200)", "200"}, {int64(1234567), "int64(1234567)", "1234567"}, {uint32(4000000000), "uint32(4000000000)", "4000000000"},
+		{float32(2.5), "float32(2.5)", "2.5"}, {2016.0, "float64(2016)", "2016"}, {true, "bool(true)", "true"}, {"plain", "string(plain)", "plain"}, {"a b", "string(a b)", "a b"}} {
+		if err := g.vm.Set("__s0", v.gov); err != nil {
+			panic(err)
+		}
+		for f := 0; f < 6; f++ {
+			g.strArgCase([]int{f}, "__s0 /* vm.Set "+v.desc+" */", Units(v.text), "strarg:go", true)
+		}
+	}
+}
+
 func runC13(env *Env) {
 	env.Import = "Otto.C13.Corr"
-	env.Rule = "Math: every function over a pool of IEEE specials (NaN, +-0, +-Infinity, +-1, +-0.5 and neighbours, 2^52..2^53 integers, half-integers, subnormals, extremes), their neighbours and random bit patterns, with 0..6 arguments, also as strings/booleans/null/undefined/objects; pow and atan2 table cells and exact rational powers; valueOf call logs; inverse/identity relations, anchors, monotone pairs; isNaN/isFinite over a ToNumber pool; strings over ASCII (reserved, marks, %), 2/3-byte boundaries, BMP, astral and lone surrogates through chains of encode/decode/escape/unescape; decode/unescape on percent-encodings with ill-formed octet sequences and 1-2 random mutations. every function x every boundary in every payload representation (results of |0 >>>0 << ~ >> & ^, lengths, parseInt, literals; Go int/int8..int64/uint..uint64/float32/float64 at their type minima and maxima through vm.Set and vm.Call); pow with integer and half-integer exponents whose exact result is subnormal, at the overflow boundary, or whose x^n overflows while x^-n is representable (exact oracle); every Math and global function with an argument whose ToNumber/ToString throws (5 kinds) at every position, conversions logged; class identity (instanceof / prototype identity / constructor link against the running runtime's own constructors, tamper isolation) of every URIError / TypeError / thrown error these functions raise, in a fresh runtime, in Copy(), in a copy of a copy and in a copy whose original was tampered with; non-trivial = distinct case with a special/neighbour argument, an unusual argument count, or a string containing a non-ASCII unit or '%'"
+	env.Rule = "Math: every function over a pool of IEEE specials (NaN, +-0, +-Infinity, +-1, +-0.5 and neighbours, 2^52..2^53 integers, half-integers, subnormals, extremes), their neighbours and random bit patterns, with 0..6 arguments, also as strings/booleans/null/undefined/objects; pow and atan2 table cells and exact rational powers; valueOf call logs; inverse/identity relations, anchors, monotone pairs; isNaN/isFinite over a ToNumber pool; strings over ASCII (reserved, marks, %), 2/3-byte boundaries, BMP, astral and lone surrogates through chains of encode/decode/escape/unescape; decode/unescape on percent-encodings with ill-formed octet sequences and 1-2 random mutations. every function x every boundary in every payload representation (results of |0 >>>0 << ~ >> & ^, lengths, parseInt, literals; Go int/int8..int64/uint..uint64/float32/float64 at their type minima and maxima through vm.Set and vm.Call); pow with integer and half-integer exponents whose exact result is subnormal, at the overflow boundary, or whose x^n overflows while x^-n is representable (exact oracle); every Math and global function with an argument whose ToNumber/ToString throws (5 kinds) at every position, conversions logged; class identity (instanceof / prototype identity / constructor link against the running runtime's own constructors, tamper isolation) of every URIError / TypeError / thrown error these functions raise, in a fresh runtime, in Copy(), in a copy of a copy and in a copy whose original was tampered with; every Math and global function with 1-3 logging arguments (each converted exactly once, left to right); arguments whose valueOf / toString re-enters Math.max/min/pow/..., isNaN, the URI coders (22 inner calls x every position x 2-5 arguments, nested); the six string functions on every non-string argument kind (missing, undefined, null, booleans, numbers, int32/uint32 results, wrapper objects, arrays, toString/valueOf objects, Go values through the API): ToString-based and a String primitive; non-trivial = distinct case with a special/neighbour argument, an unusual argument count, or a string containing a non-ASCII unit or '%'"
 	g := &gen{env: env, vm: otto.New(), r: env.Rng}
 	r := env.Rng
 	g.pinned()
@@ -1401,6 +1577,9 @@ func runC13(env *Env) {
 	g.throwSweeps()
 	g.makeContexts()
 	g.errIdSweeps()
+	g.countSweeps()
+	g.reentrantSweeps()
+	g.strArgSweeps()
 	for it := 0; env.Count() < env.N || len(g.pendingPow) > 0; it++ {
 		if len(g.pendingPow) > 0 && (it%8 == 0 || env.Count() >= env.N) {
 			xy := g.pendingPow[0]
